@@ -208,3 +208,44 @@ Theorem C02_short_circuit_silent :
   = Done (VBool false, mkEnv [[]] false).
 Proof. vm_compute. reflexivity. Qed.
 Print Assumptions C02_short_circuit_silent.
+
+(* ------------------------------------------------------------------------------------
+   Program level (Compile/Lower.v = model of compile.rs, Compile/TSem.v = its bit-level
+   semantics).  The panic the circuit reports is exactly the panic observation of the
+   bit-level semantics: same presence, same reason, same location; this is the decoding half
+   of lower_program_sound. *)
+From GV Require Import Circuit.Ssa Builder.Build Lang.Ast Compile.Lower Compile.TSem Compile.LowerSound Compile.TSemFacts.
+
+Theorem C02_circuit_panic_is_semantics_panic : forall fuel dedup P s1 outs,
+  lower_main_with fuel dedup P = Ok (PreOk s1 outs) ->
+  counter (cb s1) + (b_shift (cb s1) - 2) <= MAX_GATES ->
+  exists fd igs bindings,
+    find_fn P (p_main P) = Some fd /\ param_wiring P (fn_params fd) = (igs, bindings) /\
+    forall ins inp o vouts,
+      load_inputs igs ins = Some inp ->
+      tsem_program fuel P (param_args bindings inp) = Ok (o, vouts) ->
+      exists c out,
+        lower_program_with fuel dedup P = Ok (LCircuit c) /\ ssa_eval c ins = Some out /\
+        parse_panic out = parse_spec o vouts.
+Proof.
+  intros fuel dedup P s1 outs H M.
+  destruct (lower_program_sound fuel dedup P s1 outs H M) as (fd & igs & bindings & Efd & Epw & S).
+  exists fd, igs, bindings. split; [assumption|]. split; [assumption|]. intros ins inp o vouts Hl Ht.
+  destruct (S ins inp o vouts Hl Ht) as (c & out & L & _ & _ & _ & E & Pp & _). eauto.
+Qed.
+Print Assumptions C02_circuit_panic_is_semantics_panic.
+
+(* In the bit-level semantics both branches of a conditional are evaluated from the state
+   after the condition, and value, variables and PANIC OBSERVATION of the whole conditional are
+   those of the branch the condition bit selects: a failing operation in the branch not taken
+   is silent, and a panic raised before (sticky through push_spec) or in the taken branch is
+   kept. *)
+Theorem C02_untaken_branch_is_silent : forall P eB pB bB c t f m ty E o b E0 o0 tw ET oT fw EF oF,
+  eB c E o = Ok (([b], E0), o0) ->
+  eB t E0 o0 = Ok ((tw, ET), oT) ->
+  eB f E0 o0 = Ok ((fw, EF), oF) ->
+  length tw = length fw -> same_env_shape ET EF -> Forall keys_distinct EF ->
+  lower_expr_body tops P eB pB bB (Ex (EIf c t f) m ty) E o =
+    Ok ((if b then tw else fw, if b then ET else EF), if b then oT else oF).
+Proof. exact tsem_if_selects. Qed.
+Print Assumptions C02_untaken_branch_is_silent.
